@@ -546,6 +546,10 @@ func (p *Parameter) parseABIParameterComponents(ctx context.Context) (tc *typeCo
 	suffix, arrays := splitElementaryTypeSuffix(abiTypeString, len(etStr))
 
 	if etStr == tupleTypeString {
+		if suffix != "" {
+			// Only array dimensions can follow "tuple" - the members are described by the components
+			return nil, i18n.NewError(ctx, signermsgs.MsgUnsupportedABISuffix, suffix, abiTypeString, tupleTypeString)
+		}
 		tc = &typeComponent{
 			cType:         TupleComponent,
 			tupleChildren: make([]*typeComponent, len(p.Components)),
